@@ -16,6 +16,7 @@ CONSTANTS
   PermuteLists = TRUE
   AtomicGossip = TRUE
   AtomicExec = TRUE
-INVARIANTS TypeOK Inv_SameTerms Inv_OrderIndependent Inv_OwnIndex Inv_SameQual Inv_NoLoss Inv_SameGroupButTransition Inv_SameGroup
+  MaxDrop = 0
+INVARIANTS TypeOK Inv_SameTerms Inv_OrderIndependent Inv_OwnIndex Inv_SameQual Inv_NoLoss Inv_EchoHeals Inv_SameGroupButTransition Inv_SameGroup
 VIEW View
 CHECK_DEADLOCK FALSE
